@@ -115,11 +115,17 @@ def run(ctx, res):
             continue
         nfun += 1
         res.saw(f)
-        try:
-            ev = APE.run(prog, cg, f, bound=1, opaque_calls=set(acquire), max_paths=20000)
-        except BrokenAnalysis:
-            res.notes.append("path budget exceeded in %s: ownership not decided there" % f.name)
-            continue
+        ev = None
+        for bnd in range(APE.BOUND, 0, -1):
+            try:
+                ev = APE.run(prog, cg, f, bound=bnd, opaque_calls=set(acquire), max_paths=40000)
+                if bnd != APE.BOUND:
+                    res.notes.append("%s analysed with loop bound %d (path budget)" % (f.name, bnd))
+                break
+            except BrokenAnalysis:
+                continue
+        if ev is None:
+            raise BrokenAnalysis("path budget exceeded in %s even with loop bound 1: ownership cannot be decided there" % f.name)
         leaks = {}
         oks = set()
         r2bad = {}
@@ -143,7 +149,7 @@ def run(ctx, res):
     rw = prog.need("result_worker", "mtbl/threadpool.c")
     okx = any(canon(call_args(c)[0]) == "&rh->rq" for c in rw.calls("resultq_destroy"))
     rhd = prog.need("result_handler_destroy", "mtbl/threadpool.c")
-    evp = APE.run(prog, cg, rhd, bound=1)
+    evp = APE.run(prog, cg, rhd, bound=APE.BOUND)
     for p in evp.paths:
         names = [e.a for e in p.events if e.kind == "call"]
         if "free" in names:
@@ -151,7 +157,7 @@ def run(ctx, res):
     res.check(okx, "C18.R2", "result_handler.rq:released-by-joined-thread", FIELD_EXCEPTIONS[("result_handler", "rq")],
               "the result queue is no longer released by the result thread before the handler is freed")
     fd_ = prog.need("mtbl_fileset_destroy", "mtbl/fileset.c")
-    evp = APE.run(prog, cg, fd_, bound=1)
+    evp = APE.run(prog, cg, fd_, bound=APE.BOUND)
     okr = False
     for p in evp.paths:
         if p.end != "exit":
